@@ -393,7 +393,7 @@ func Discharge(x *Exec, inst Instance, so SolveOpts) *InstResult {
 		onlyUnwind := true
 		for _, o := range group {
 			all = u.Or(all, o.Cond)
-			if o.Kind != "unwind" && o.Kind != "blocked" {
+			if o.Kind != "unwind" && o.Kind != "blocked" && o.Kind != "deadlock" {
 				onlyUnwind = false
 			}
 		}
@@ -446,7 +446,7 @@ func Discharge(x *Exec, inst Instance, so SolveOpts) *InstResult {
 	}
 	var unw, rest []Oblig
 	for _, o := range asserts {
-		if o.Kind == "blocked" {
+		if o.Kind == "blocked" || o.Kind == "deadlock" {
 			// a reader that must wait never gets past this point: decided without the unwinding assumptions
 			decide([]Oblig{o})
 			continue
